@@ -282,6 +282,11 @@ func c02Self(r *core.Run) {
 					if core.IsNilConst(x) || core.IsNilConst(y) {
 						return false, false
 					}
+					// both sides are nest roots: a reference from a closure to its enclosing function, to a
+					// sibling closure or to a deeper closure belongs to the same nest as well
+					if !isNestRoot(p, x) || !isNestRoot(p, y) {
+						return false, false
+					}
 					return true, op == token.NEQ
 				}
 				ok1, n1, path := core.MustPassFrom(fn, fn.Blocks[0], in.Block(), atom, bypass)
@@ -313,6 +318,39 @@ func c02Self(r *core.Run) {
 		})
 	}
 	r.Check(set, "C02.SELF", "ir.Canonicalizer#subject-recorded", token.NoPos, "the function being canonicalised is recorded before rendering", "the canonicaliser never records which function it is rendering: own-nest references cannot be recognised")
+}
+
+// isNestRoot: v is, on every origin, the result of a helper func(*ssa.Function) *ssa.Function that walks
+// Parent() in a loop (the outermost enclosing function).
+func isNestRoot(p *core.Program, v ssa.Value) bool {
+	os := core.Origins(v)
+	if len(os) == 0 {
+		return false
+	}
+	for _, o := range os {
+		c, ok := o.(*ssa.Call)
+		if !ok {
+			return false
+		}
+		callee := core.StaticCallee(&c.Call)
+		if callee == nil || !p.IsProdFunc(callee) || len(callee.Params) != 1 {
+			return false
+		}
+		rt := resultTypes(callee)
+		if len(rt) != 1 || !strings.HasSuffix(rt[0].String(), "ssa.Function") || !strings.HasSuffix(callee.Params[0].Type().String(), "ssa.Function") {
+			return false
+		}
+		walks := false
+		core.InstrsOf(callee, func(in ssa.Instruction) {
+			if cc := core.CallOf(in); cc != nil && core.CalleeName(cc) == "(*"+ssaPkgPath+".Function).Parent" && core.LoopHeaderOf(in.Block()) != nil {
+				walks = true
+			}
+		})
+		if !walks {
+			return false
+		}
+	}
+	return true
 }
 
 func c02Abst(r *core.Run) {
@@ -401,6 +439,37 @@ func c02Comm(r *core.Run) {
 			r.Check(ft == y && ff == x, "C02.COMM", fnm+"#ordered-write", ifi.Pos(), "the smaller rendered operand is written first", "the branches do not write the operands in exchanged order: a+b and b+a render differently")
 		}
 	}
+	// the predicate really covers the commutative integer operations, also for defined integer types
+	nPred := 0
+	for _, fn := range p.FuncsIn("pkg/analysis/ir") {
+		rt := resultTypes(fn)
+		if len(rt) != 1 || rt[0].String() != "bool" || len(fn.Params) != 1 || !strings.HasSuffix(fn.Params[0].Type().String(), "ssa.BinOp") {
+			continue
+		}
+		nPred++
+		fnm := core.FuncName(fn)
+		covered := map[token.Token]bool{}
+		for _, ret := range core.Returns(fn) {
+			c, ok := ret.Results[0].(*ssa.Const)
+			if !ok || c.Value == nil || c.Value.String() != "true" {
+				continue
+			}
+			gate, _ := tokensGating(fn, ret.Block(), "Op")
+			for _, g := range gate {
+				covered[g] = true
+			}
+		}
+		var missing []string
+		for _, t := range []token.Token{token.ADD, token.MUL, token.AND, token.OR, token.XOR} {
+			if !covered[t] {
+				missing = append(missing, t.String())
+			}
+		}
+		r.Check(len(missing) == 0, "C02.COMM", fnm+"#covers-commutative-integer-ops", fn.Pos(), "+ * & | ^ are recognised as commutative", "operators {"+strings.Join(missing, " ")+"} are not recognised as commutative: exchanging their operands changes the fingerprint")
+		all, bad := structuralAsserts(fn, "types.Basic")
+		r.Check(len(all) > 0 && len(bad) == 0, "C02.COMM", fnm+"#numeric-test-through-Underlying", fn.Pos(), "the numeric test looks through defined types (Underlying)", "the numeric test is applied to the declared type, not its Underlying(): a+b on a defined integer type (time.Duration, type Cents int64) is not treated as commutative")
+	}
+	r.Floor("C02.COMM", "commutativity predicate func(*ssa.BinOp) bool", nPred, 1)
 	r.Floor("C02.COMM", "ordered operand write of commutative operations", n, 1)
 }
 
